@@ -11,6 +11,9 @@
 (*   fx[t]   the track carries one effect that halves the signal            *)
 (*   vol[t]  track volume, rv[t] volume of the route t -> S: 1 (0 dB),      *)
 (*           0 (-60 dB, exactly silent) or -1 (no such route)               *)
+(*   persistB        B was built with persist_until_sounds_finish: after its  *)
+(*           handle is dropped it (and, in a chain, its parent A) stays     *)
+(*           while s2 plays - in these scenes s2 never finishes             *)
 (*   send2, rv2[t]   a second send track S2 (no effect, 0 dB) and the       *)
 (*           routes t -> S2, (in the route table in no particular order) *)
 (* Events                                                                   *)
@@ -37,7 +40,7 @@ PInit(sc) ==
     live |-> sc.snd,                 \* sounds playing
     alive |-> sc.trk,                \* sub-tracks that exist
     sends |-> (IF sc.send THEN {"S"} ELSE {}) \cup (IF sc.send2 THEN {"S2"} ELSE {}),
-    paused |-> {}, pend |-> <<>>,
+    paused |-> {}, pend |-> <<>>, dropped |-> {},
     cnt |-> TLCEval([s \in Snds |-> 0]) ]
 
 Parent(sc, t) == IF t = "B" /\ sc.shape = "chain" THEN "A" ELSE "main"
@@ -51,14 +54,15 @@ After(m) ==
   LET ops == m.pend
       fin == {ops[i].x : i \in {j \in 1..Len(ops) : ops[j].o = "finish"}}
       drp == {ops[i].x : i \in {j \in 1..Len(ops) : ops[j].o = "drop"}}
-      goneB == "B" \in drp \/ "AB" \in drp
-      goneA == "AB" \in drp
+      live2 == m.live \ fin
+      goneB == "B" \notin m.alive \/ (("B" \in drp \/ "AB" \in drp \/ "B" \in m.dropped \/ "AB" \in m.dropped) /\ ~(m.sc.persistB /\ "s2" \in live2))
+      goneA == ("AB" \in drp \/ "AB" \in m.dropped) /\ (m.sc.shape = "chain" => goneB)
       lastOp(t) == LET js == {j \in 1..Len(ops) : ops[j].x = t /\ ops[j].o \in {"pause", "resume"}} IN
                    IF js = {} THEN "none" ELSE ops[CHOOSE j \in js : \A k \in js : k <= j].o
-      alive2 == (m.alive \ (IF goneA THEN (IF m.sc.shape = "chain" THEN {"A", "B"} ELSE {"A"}) ELSE {})) \ (IF goneB THEN {"B"} ELSE {})
+      alive2 == (m.alive \ (IF goneA THEN {"A"} ELSE {})) \ (IF goneB THEN {"B"} ELSE {})
   IN [m EXCEPT !.live = {s \in m.live \ fin : Host(s) = "main" \/ Host(s) \in alive2},
                !.alive = alive2,
-               !.sends = m.sends \ drp,
+               !.sends = m.sends \ drp, !.dropped = m.dropped \cup drp,
                !.paused = {t \in alive2 : (t \in m.paused /\ lastOp(t) # "resume") \/ lastOp(t) = "pause"},
                !.pend = <<>>]
 
